@@ -88,13 +88,33 @@ def FreshCbs : State → List Cb → Prop
   | s, cb :: r => FreshCb s cb ∧ FreshCbs (applyCb s cb) r
 
 def FreshOp (s : State) : Op → Prop
-  | .respond _ cbs => FreshCbs s cbs
+  | .respond acc cbs => acc = true → FreshCbs s cbs
   | .block _ cbs => FreshCbs s cbs
   | _ => True
 
 def FreshRun : State → List Op → Prop
   | _, [] => True
   | s, op :: r => FreshOp s op ∧ FreshRun (apply s op) r
+
+/-- the batch counters of the completed-batch callbacks for feed `n`, in order of arrival -/
+def batchesCbs (n : Name) : List Cb → List Nat
+  | [] => []
+  | .done f b _ _ :: r => if f = n then b :: batchesCbs n r else batchesCbs n r
+  | .state _ _ :: r => batchesCbs n r
+
+def batchesOp (n : Name) : Op → List Nat
+  | .respond true cbs => batchesCbs n cbs
+  | .block _ cbs => batchesCbs n cbs
+  | _ => []
+
+def batches (n : Name) : List Op → List Nat
+  | [] => []
+  | op :: r => batchesOp n op ++ batches n r
+
+/-- strictly increasing, starting at or above `k` -/
+def IncrFrom : Nat → List Nat → Prop
+  | _, [] => True
+  | k, b :: r => k ≤ b ∧ IncrFrom (b + 1) r
 
 /-- the value a callback makes the oracle store for feed `n` (none for failed batches) -/
 def producedBy (s : State) (n : Name) : Cb → List Value
